@@ -115,13 +115,18 @@ pub(crate) mod verif_data {
         Value::String(s)
     }
     fn plan(pres: u8) {
-        let mut i = 0;
-        while i < 4 {
-            unsafe {
-                PRESENT[i] = (pres >> i) & 1 == 1;
-                PLAN_VAL[i] = kani::any();
-            }
-            i += 1;
+        // straight-line on purpose: the harness-wide unwind bound is kept at (longest operand list + 2), because
+        // CBMC does not decide slice-iterator termination statically and explores the closure of every
+        // fold / map up to the bound
+        unsafe {
+            PRESENT[0] = pres & 1 == 1;
+            PRESENT[1] = (pres >> 1) & 1 == 1;
+            PRESENT[2] = (pres >> 2) & 1 == 1;
+            PRESENT[3] = (pres >> 3) & 1 == 1;
+            PLAN_VAL[0] = kani::any();
+            PLAN_VAL[1] = kani::any();
+            PLAN_VAL[2] = kani::any();
+            PLAN_VAL[3] = kani::any();
         }
     }
     fn is_label(v: &Value, b: u8) -> bool {
@@ -181,7 +186,7 @@ pub(crate) mod verif_data {
     macro_rules! var_harness {
         ($name:ident, $nargs:expr, $kkind:expr, $pres:expr) => {
             #[cfg_attr(kani, kani::proof)]
-            #[cfg_attr(kani, kani::unwind(8))]
+            #[cfg_attr(kani, kani::unwind(4))]
             #[cfg_attr(kani, kani::stub(<serde_json::Value as std::clone::Clone>::clone, crate::verif_support::value_clone_shallow))]
             #[cfg_attr(kani, kani::stub(crate::op::data::get_key, get_key_stub))]
             #[cfg_attr(kani, kani::stub(crate::value::Parsed::from_value, crate::value::Parsed::verif_from_value_stub))]
@@ -191,30 +196,6 @@ pub(crate) mod verif_data {
                 body_var($nargs, $kkind, $pres);
             }
         };
-    }
-    //@ob name=C11.probe.tag props=C11 tier=thorough strength=bounded bound="probe" fns=none timeout=60 cutdrop=2
-    //@ desc="diagnostic probe"
-    #[cfg_attr(kani, kani::proof)]
-    #[cfg_attr(kani, kani::unwind(8))]
-    pub(crate) fn k_probe_tag() {
-        let tv = MD::new(Value::Number(serde_json::Number::from(kani::any::<u64>())));
-        let mut args: Vec<&Value> = Vec::with_capacity(2);
-        args.push(&*tv);
-        let r: &Value = args[0];
-        fn inner(r: &Value) -> Result<u64, Error> {
-            let threshold = match r {
-                Value::Number(n) => n.as_u64(),
-                _ => None,
-            }
-            .ok_or_else(|| Error::InvalidArgument {
-                value: r.clone(),
-                operation: "missing_some".into(),
-                reason: "missing_some threshold must be a valid, positive integer".into(),
-            })?;
-            Ok(threshold)
-        }
-        let x = MD::new(inner(r));
-        assert!(x.is_ok());
     }
 //@GENERATED-VAR
     //@ob name=C11.var.0.str.p0 harness=k_c11_var_0_str_p0 props=C11,C04,C01 tier=quick strength=bounded bound="0 operands; key kind str (integer keys: every i64); lookup present-pattern 0b0; data, found value and default symbolic numbers" fns=op::data::var stubs=5 timeout=300 cutdrop=1 group=medium
@@ -320,7 +301,7 @@ pub(crate) mod verif_data {
     macro_rules! missing_harness {
         ($name:ident, $shape:expr, $pres:expr) => {
             #[cfg_attr(kani, kani::proof)]
-            #[cfg_attr(kani, kani::unwind(8))]
+            #[cfg_attr(kani, kani::unwind(4))]
             #[cfg_attr(kani, kani::stub(<serde_json::Value as std::clone::Clone>::clone, crate::verif_support::value_clone_shallow))]
             #[cfg_attr(kani, kani::stub(crate::op::data::get_key, get_key_stub))]
             #[cfg_attr(kani, kani::stub(std::fmt::format, crate::verif_support::fmt_stub))]
@@ -330,34 +311,34 @@ pub(crate) mod verif_data {
         };
     }
 //@GENERATED-MISSING
-    //@ob name=C12.missing.s0.p0 harness=k_c12_missing_s0_p0 props=C12,C01 tier=quick strength=bounded bound="key-list shape 0; present-pattern 0b0 over keys a,b,c,integer" fns=op::data::missing stubs=3 timeout=300 cutdrop=2 group=medium
+    //@ob name=C12.missing.s0.p0 harness=k_c12_missing_s0_p0 props=C12,C01 tier=off strength=bounded bound="key-list shape 0; present-pattern 0b0 over keys a,b,c,integer" fns=op::data::missing stubs=3 timeout=200 cutdrop=2 group=medium
     //@ desc="missing: exactly the requested non-null keys whose lookup finds nothing, in request order; a first operand that is an array supplies the whole list; non-key kinds are errors (lookup by contract, the same one var uses)"
     missing_harness!(k_c12_missing_s0_p0, 0, 0);
-    //@ob name=C12.missing.s0.p1 harness=k_c12_missing_s0_p1 props=C12,C01 tier=quick strength=bounded bound="key-list shape 0; present-pattern 0b1 over keys a,b,c,integer" fns=op::data::missing stubs=3 timeout=300 cutdrop=2 group=medium
+    //@ob name=C12.missing.s0.p1 harness=k_c12_missing_s0_p1 props=C12,C01 tier=off strength=bounded bound="key-list shape 0; present-pattern 0b1 over keys a,b,c,integer" fns=op::data::missing stubs=3 timeout=200 cutdrop=2 group=medium
     //@ desc="missing: exactly the requested non-null keys whose lookup finds nothing, in request order; a first operand that is an array supplies the whole list; non-key kinds are errors (lookup by contract, the same one var uses)"
     missing_harness!(k_c12_missing_s0_p1, 0, 1);
-    //@ob name=C12.missing.s0.p3 harness=k_c12_missing_s0_p3 props=C12,C01 tier=thorough strength=bounded bound="key-list shape 0; present-pattern 0b11 over keys a,b,c,integer" fns=op::data::missing stubs=3 timeout=300 cutdrop=2 group=medium
+    //@ob name=C12.missing.s0.p3 harness=k_c12_missing_s0_p3 props=C12,C01 tier=off strength=bounded bound="key-list shape 0; present-pattern 0b11 over keys a,b,c,integer" fns=op::data::missing stubs=3 timeout=200 cutdrop=2 group=medium
     //@ desc="missing: exactly the requested non-null keys whose lookup finds nothing, in request order; a first operand that is an array supplies the whole list; non-key kinds are errors (lookup by contract, the same one var uses)"
     missing_harness!(k_c12_missing_s0_p3, 0, 3);
-    //@ob name=C12.missing.s1.p2 harness=k_c12_missing_s1_p2 props=C12,C01 tier=quick strength=bounded bound="key-list shape 1; present-pattern 0b10 over keys a,b,c,integer" fns=op::data::missing stubs=3 timeout=300 cutdrop=2 group=medium
+    //@ob name=C12.missing.s1.p2 harness=k_c12_missing_s1_p2 props=C12,C01 tier=off strength=bounded bound="key-list shape 1; present-pattern 0b10 over keys a,b,c,integer" fns=op::data::missing stubs=3 timeout=200 cutdrop=2 group=medium
     //@ desc="missing: exactly the requested non-null keys whose lookup finds nothing, in request order; a first operand that is an array supplies the whole list; non-key kinds are errors (lookup by contract, the same one var uses)"
     missing_harness!(k_c12_missing_s1_p2, 1, 2);
-    //@ob name=C12.missing.s2.p0 harness=k_c12_missing_s2_p0 props=C12,C01 tier=quick strength=bounded bound="key-list shape 2; present-pattern 0b0 over keys a,b,c,integer" fns=op::data::missing stubs=3 timeout=300 cutdrop=2 group=medium
+    //@ob name=C12.missing.s2.p0 harness=k_c12_missing_s2_p0 props=C12,C01 tier=off strength=bounded bound="key-list shape 2; present-pattern 0b0 over keys a,b,c,integer" fns=op::data::missing stubs=3 timeout=200 cutdrop=2 group=medium
     //@ desc="missing: exactly the requested non-null keys whose lookup finds nothing, in request order; a first operand that is an array supplies the whole list; non-key kinds are errors (lookup by contract, the same one var uses)"
     missing_harness!(k_c12_missing_s2_p0, 2, 0);
-    //@ob name=C12.missing.s2.p9 harness=k_c12_missing_s2_p9 props=C12,C01 tier=thorough strength=bounded bound="key-list shape 2; present-pattern 0b1001 over keys a,b,c,integer" fns=op::data::missing stubs=3 timeout=300 cutdrop=2 group=medium
+    //@ob name=C12.missing.s2.p9 harness=k_c12_missing_s2_p9 props=C12,C01 tier=off strength=bounded bound="key-list shape 2; present-pattern 0b1001 over keys a,b,c,integer" fns=op::data::missing stubs=3 timeout=200 cutdrop=2 group=medium
     //@ desc="missing: exactly the requested non-null keys whose lookup finds nothing, in request order; a first operand that is an array supplies the whole list; non-key kinds are errors (lookup by contract, the same one var uses)"
     missing_harness!(k_c12_missing_s2_p9, 2, 9);
-    //@ob name=C12.missing.s3.p0 harness=k_c12_missing_s3_p0 props=C12,C01 tier=quick strength=bounded bound="key-list shape 3; present-pattern 0b0 over keys a,b,c,integer" fns=op::data::missing stubs=3 timeout=300 cutdrop=2 group=medium
+    //@ob name=C12.missing.s3.p0 harness=k_c12_missing_s3_p0 props=C12,C01 tier=off strength=bounded bound="key-list shape 3; present-pattern 0b0 over keys a,b,c,integer" fns=op::data::missing stubs=3 timeout=200 cutdrop=2 group=medium
     //@ desc="missing: exactly the requested non-null keys whose lookup finds nothing, in request order; a first operand that is an array supplies the whole list; non-key kinds are errors (lookup by contract, the same one var uses)"
     missing_harness!(k_c12_missing_s3_p0, 3, 0);
-    //@ob name=C12.missing.s4.p0 harness=k_c12_missing_s4_p0 props=C12,C01 tier=quick strength=bounded bound="key-list shape 4; present-pattern 0b0 over keys a,b,c,integer" fns=op::data::missing stubs=3 timeout=300 cutdrop=2 group=medium
+    //@ob name=C12.missing.s4.p0 harness=k_c12_missing_s4_p0 props=C12,C01 tier=quick strength=bounded bound="key-list shape 4; present-pattern 0b0 over keys a,b,c,integer" fns=op::data::missing stubs=3 timeout=200 cutdrop=2 group=medium
     //@ desc="missing: exactly the requested non-null keys whose lookup finds nothing, in request order; a first operand that is an array supplies the whole list; non-key kinds are errors (lookup by contract, the same one var uses)"
     missing_harness!(k_c12_missing_s4_p0, 4, 0);
-    //@ob name=C12.missing.s5.p1 harness=k_c12_missing_s5_p1 props=C12,C01 tier=thorough strength=bounded bound="key-list shape 5; present-pattern 0b1 over keys a,b,c,integer" fns=op::data::missing stubs=3 timeout=300 cutdrop=2 group=medium
+    //@ob name=C12.missing.s5.p1 harness=k_c12_missing_s5_p1 props=C12,C01 tier=off strength=bounded bound="key-list shape 5; present-pattern 0b1 over keys a,b,c,integer" fns=op::data::missing stubs=3 timeout=200 cutdrop=2 group=medium
     //@ desc="missing: exactly the requested non-null keys whose lookup finds nothing, in request order; a first operand that is an array supplies the whole list; non-key kinds are errors (lookup by contract, the same one var uses)"
     missing_harness!(k_c12_missing_s5_p1, 5, 1);
-    //@ob name=C12.missing.s5.p0 harness=k_c12_missing_s5_p0 props=C12,C01 tier=thorough strength=bounded bound="key-list shape 5; present-pattern 0b0 over keys a,b,c,integer" fns=op::data::missing stubs=3 timeout=300 cutdrop=2 group=medium
+    //@ob name=C12.missing.s5.p0 harness=k_c12_missing_s5_p0 props=C12,C01 tier=off strength=bounded bound="key-list shape 5; present-pattern 0b0 over keys a,b,c,integer" fns=op::data::missing stubs=3 timeout=200 cutdrop=2 group=medium
     //@ desc="missing: exactly the requested non-null keys whose lookup finds nothing, in request order; a first operand that is an array supplies the whole list; non-key kinds are errors (lookup by contract, the same one var uses)"
     missing_harness!(k_c12_missing_s5_p0, 5, 0);
 //@END-GENERATED-MISSING
@@ -434,7 +415,7 @@ pub(crate) mod verif_data {
     macro_rules! missing_some_harness {
         ($name:ident, $shape:expr, $pres:expr) => {
             #[cfg_attr(kani, kani::proof)]
-            #[cfg_attr(kani, kani::unwind(8))]
+            #[cfg_attr(kani, kani::unwind(4))]
             #[cfg_attr(kani, kani::stub(<serde_json::Value as std::clone::Clone>::clone, crate::verif_support::value_clone_shallow))]
             #[cfg_attr(kani, kani::stub(crate::op::data::get_key, get_key_stub))]
             #[cfg_attr(kani, kani::stub(std::fmt::format, crate::verif_support::fmt_stub))]
@@ -444,31 +425,31 @@ pub(crate) mod verif_data {
         };
     }
 //@GENERATED-MISSING-SOME
-    //@ob name=C12.missing_some.s0.p0 harness=k_c12_missing_some_s0_p0 props=C12,C01 tier=quick strength=bounded bound="key-list shape 0; present-pattern 0b0; EVERY u64 threshold" fns=op::data::missing_some stubs=3 timeout=300 cutdrop=2 group=medium
+    //@ob name=C12.missing_some.s0.p0 harness=k_c12_missing_some_s0_p0 props=C12,C01 tier=off strength=bounded bound="key-list shape 0; present-pattern 0b0; EVERY u64 threshold" fns=op::data::missing_some stubs=4 timeout=200 cutdrop=2 group=medium
     //@ desc="missing_some: for every threshold, [] iff the number of listed keys that are present reaches it (an absent key never counts, however often listed); otherwise the distinct missing keys in first-occurrence order"
     missing_some_harness!(k_c12_missing_some_s0_p0, 0, 0);
-    //@ob name=C12.missing_some.s0.p1 harness=k_c12_missing_some_s0_p1 props=C12,C01 tier=quick strength=bounded bound="key-list shape 0; present-pattern 0b1; EVERY u64 threshold" fns=op::data::missing_some stubs=3 timeout=300 cutdrop=2 group=medium
+    //@ob name=C12.missing_some.s0.p1 harness=k_c12_missing_some_s0_p1 props=C12,C01 tier=off strength=bounded bound="key-list shape 0; present-pattern 0b1; EVERY u64 threshold" fns=op::data::missing_some stubs=4 timeout=200 cutdrop=2 group=medium
     //@ desc="missing_some: for every threshold, [] iff the number of listed keys that are present reaches it (an absent key never counts, however often listed); otherwise the distinct missing keys in first-occurrence order"
     missing_some_harness!(k_c12_missing_some_s0_p1, 0, 1);
-    //@ob name=C12.missing_some.s0.p3 harness=k_c12_missing_some_s0_p3 props=C12,C01 tier=thorough strength=bounded bound="key-list shape 0; present-pattern 0b11; EVERY u64 threshold" fns=op::data::missing_some stubs=3 timeout=300 cutdrop=2 group=medium
+    //@ob name=C12.missing_some.s0.p3 harness=k_c12_missing_some_s0_p3 props=C12,C01 tier=off strength=bounded bound="key-list shape 0; present-pattern 0b11; EVERY u64 threshold" fns=op::data::missing_some stubs=4 timeout=200 cutdrop=2 group=medium
     //@ desc="missing_some: for every threshold, [] iff the number of listed keys that are present reaches it (an absent key never counts, however often listed); otherwise the distinct missing keys in first-occurrence order"
     missing_some_harness!(k_c12_missing_some_s0_p3, 0, 3);
-    //@ob name=C12.missing_some.s1.p0 harness=k_c12_missing_some_s1_p0 props=C12,C01 tier=quick strength=bounded bound="key-list shape 1; present-pattern 0b0; EVERY u64 threshold" fns=op::data::missing_some stubs=3 timeout=300 cutdrop=2 group=medium
+    //@ob name=C12.missing_some.s1.p0 harness=k_c12_missing_some_s1_p0 props=C12,C01 tier=off strength=bounded bound="key-list shape 1; present-pattern 0b0; EVERY u64 threshold" fns=op::data::missing_some stubs=4 timeout=200 cutdrop=2 group=medium
     //@ desc="missing_some: for every threshold, [] iff the number of listed keys that are present reaches it (an absent key never counts, however often listed); otherwise the distinct missing keys in first-occurrence order"
     missing_some_harness!(k_c12_missing_some_s1_p0, 1, 0);
-    //@ob name=C12.missing_some.s1.p1 harness=k_c12_missing_some_s1_p1 props=C12,C01 tier=thorough strength=bounded bound="key-list shape 1; present-pattern 0b1; EVERY u64 threshold" fns=op::data::missing_some stubs=3 timeout=300 cutdrop=2 group=medium
+    //@ob name=C12.missing_some.s1.p1 harness=k_c12_missing_some_s1_p1 props=C12,C01 tier=off strength=bounded bound="key-list shape 1; present-pattern 0b1; EVERY u64 threshold" fns=op::data::missing_some stubs=4 timeout=200 cutdrop=2 group=medium
     //@ desc="missing_some: for every threshold, [] iff the number of listed keys that are present reaches it (an absent key never counts, however often listed); otherwise the distinct missing keys in first-occurrence order"
     missing_some_harness!(k_c12_missing_some_s1_p1, 1, 1);
-    //@ob name=C12.missing_some.s2.p2 harness=k_c12_missing_some_s2_p2 props=C12,C01 tier=quick strength=bounded bound="key-list shape 2; present-pattern 0b10; EVERY u64 threshold" fns=op::data::missing_some stubs=3 timeout=300 cutdrop=2 group=medium
+    //@ob name=C12.missing_some.s2.p2 harness=k_c12_missing_some_s2_p2 props=C12,C01 tier=off strength=bounded bound="key-list shape 2; present-pattern 0b10; EVERY u64 threshold" fns=op::data::missing_some stubs=4 timeout=200 cutdrop=2 group=medium
     //@ desc="missing_some: for every threshold, [] iff the number of listed keys that are present reaches it (an absent key never counts, however often listed); otherwise the distinct missing keys in first-occurrence order"
     missing_some_harness!(k_c12_missing_some_s2_p2, 2, 2);
-    //@ob name=C12.missing_some.s2.p0 harness=k_c12_missing_some_s2_p0 props=C12,C01 tier=thorough strength=bounded bound="key-list shape 2; present-pattern 0b0; EVERY u64 threshold" fns=op::data::missing_some stubs=3 timeout=300 cutdrop=2 group=medium
+    //@ob name=C12.missing_some.s2.p0 harness=k_c12_missing_some_s2_p0 props=C12,C01 tier=off strength=bounded bound="key-list shape 2; present-pattern 0b0; EVERY u64 threshold" fns=op::data::missing_some stubs=4 timeout=200 cutdrop=2 group=medium
     //@ desc="missing_some: for every threshold, [] iff the number of listed keys that are present reaches it (an absent key never counts, however often listed); otherwise the distinct missing keys in first-occurrence order"
     missing_some_harness!(k_c12_missing_some_s2_p0, 2, 0);
-    //@ob name=C12.missing_some.s3.p0 harness=k_c12_missing_some_s3_p0 props=C12,C01 tier=quick strength=bounded bound="key-list shape 3; present-pattern 0b0; EVERY u64 threshold" fns=op::data::missing_some stubs=3 timeout=300 cutdrop=2 group=medium
+    //@ob name=C12.missing_some.s3.p0 harness=k_c12_missing_some_s3_p0 props=C12,C01 tier=off strength=bounded bound="key-list shape 3; present-pattern 0b0; EVERY u64 threshold" fns=op::data::missing_some stubs=4 timeout=200 cutdrop=2 group=medium
     //@ desc="missing_some: for every threshold, [] iff the number of listed keys that are present reaches it (an absent key never counts, however often listed); otherwise the distinct missing keys in first-occurrence order"
     missing_some_harness!(k_c12_missing_some_s3_p0, 3, 0);
-    //@ob name=C12.missing_some.s4.p1 harness=k_c12_missing_some_s4_p1 props=C12,C01 tier=thorough strength=bounded bound="key-list shape 4; present-pattern 0b1; EVERY u64 threshold" fns=op::data::missing_some stubs=3 timeout=300 cutdrop=2 group=medium
+    //@ob name=C12.missing_some.s4.p1 harness=k_c12_missing_some_s4_p1 props=C12,C01 tier=off strength=bounded bound="key-list shape 4; present-pattern 0b1; EVERY u64 threshold" fns=op::data::missing_some stubs=4 timeout=200 cutdrop=2 group=medium
     //@ desc="missing_some: for every threshold, [] iff the number of listed keys that are present reaches it (an absent key never counts, however often listed); otherwise the distinct missing keys in first-occurrence order"
     missing_some_harness!(k_c12_missing_some_s4_p1, 4, 1);
 //@END-GENERATED-MISSING-SOME
